@@ -5,6 +5,7 @@ import (
 	"fmt"
 	"sort"
 	"sync"
+	"time"
 )
 
 // Gate is a named parking spot for a harness actor (handler or client script).
@@ -24,6 +25,8 @@ type Sched struct {
 	links []*Link
 	Steps int
 	Trace []string // what was released, in order
+	// Tick, if positive, is slept (virtual time) at every quiescent point before the next release.
+	Tick time.Duration
 }
 
 func NewSched(links ...*Link) *Sched {
@@ -116,6 +119,11 @@ func (s *Sched) enabled() []item {
 func (s *Sched) Run(tape []byte, maxSteps int, done func() bool) {
 	for s.Steps < maxSteps {
 		Settle()
+		if s.Tick > 0 {
+			// let virtual time pass at the quiescent point: timers inside the code under test fire
+			time.Sleep(s.Tick)
+			Settle()
+		}
 		if done != nil && done() {
 			return
 		}
